@@ -80,6 +80,40 @@ PROPS = {
                   "itself); CheckIPAProof must return true iff result == p(point); the reference verifier must accept the proof",
         "assumptions": COMMON_ASSUMPTIONS,
     },
+    "C05": {
+        "test": "TestC05", "variant": "elem",
+        "quick": {"shards": 16, "timeout": 1500},
+        "thorough": {"shards": 16, "timeout": 7200},
+        "rule": "(1) enumeration: for chosen (basis position i, window k) every digit v in 1..2^w-1 (w=16 for i<5, else 8) x "
+                "carry-in {0,1} as the single-coefficient vector v*2^(wk) (+ (2^w-1)*2^(w(k-1))) of length i+1, scalar < r; quick = "
+                "3 windows of each 16-bit point (top, a last-of-limb, one seed-selected) + all windows of 48 seed-selected 8-bit "
+                "points; thorough = all 5*16 + 251*32 (position, window) units (exhaustive sub-domain). Non-trivial (counted, "
+                "distinct by construction) = digit >= half range or a carry arrives. (2) rapid vectors: length "
+                "{0..8,16,17,64,127..129,200,255,256,uniform} x {sparse, dense, dense with recipe scalars}; scalar recipes "
+                "{0,1,small,r-1..r-4,2^k,2^k-1,limb patterns,8/16-bit window recipes with carry chains,uniform}; non-trivial = "
+                "length != 256 or a recipe coefficient; distinct by the full case.",
+        "oracle": "reference sum v_i*G_i over the reference CRS (incremental walk re-derived every 1009th value by a direct "
+                  "math/big scalar multiplication), compared as group element and as compressed bytes; metamorphic laws "
+                  "Commit(a+b)=Commit(a)+Commit(b), Commit(k*a)=k*Commit(a), coefficient update = +delta*G_i, agreement with "
+                  "ipa.MultiScalar over the published SRS; SRS == specification CRS",
+        "assumptions": COMMON_ASSUMPTIONS,
+    },
+    "C06": {
+        "test": "TestC06", "variant": "elem",
+        "quick": {"shards": 16, "timeout": 1500},
+        "thorough": {"shards": 16, "timeout": 7200},
+        "rule": "byte strings for SetBytes, SetBytesUncompressed(untrusted) and common.ReadPoint (whole / chunked / data+EOF "
+                "readers): x half from {valid encoding of k*G or CRS point, its negation, x+p alias, on-curve x outside the "
+                "subgroup, off-curve x, constants 0,1,2,p-1,p,p+1,2p,2^255,2^256-1,r,(p+-1)/2, uniform, valid with one bit "
+                "flipped}; for the uncompressed form the y half from {larger root, smaller root, y+p, y+1, 0, uniform, x}; "
+                "lengths 0..80; plus a deterministic sweep of all constant pairs. Non-trivial = accepted input, or rejected "
+                "input failing exactly one clause of the predicate; distinct by (form, bytes).",
+        "oracle": "reference acceptance predicate (length, canonical coordinates, on curve via math/big ModSqrt, 1-a*x^2 a "
+                  "non-zero square via Jacobi, canonical y) evaluated clause by clause; on accept: exact affine equality with "
+                  "the reference decode, r*P in the identity class by reference arithmetic, re-encoding returns the input; no "
+                  "panic; input unchanged",
+        "assumptions": COMMON_ASSUMPTIONS,
+    },
     "C16": {
         "test": "TestC16", "variant": "elem",
         "quick": {"shards": 16, "timeout": 900},
